@@ -317,7 +317,9 @@ EventBad(t, l) ==
                                    ((IF k \in {"chain", "sub", "remap_curie", "remap_uri", "rewire"} THEN {"delim"} ELSE {}) \cup
                                     (IF ReadLoose(t, ev.op) THEN {"recs", "s2p", "rpm", "trie"} ELSE {}))} ELSE {}) \cup
   \* every other converter is untouched (C10), component by component
-  UNION {{<<"frame", k, x>> : x \in ConvDiff(pre[i], post[i])} :
+  UNION {{<<"frame", k, x>> : x \in ConvDiff(pre[i], post[i]) \cup
+                                   \* an input is left as it was: also the ORDER of its records list (both sides are logged values)
+                                   (IF pre[i].recs # post[i].recs /\ "recs" \notin ConvDiff(pre[i], post[i]) THEN {"recs_order"} ELSE {})} :
             i \in {i \in 1..Len(pre) : i <= Len(post) /\ i # r.tgt}} \cup
   (IF \E i \in 1..Len(ev.convs) : "same" \notin DOMAIN ev.convs[i] /\ ~ViewsOK(ev.convs[i]) THEN {<<"views", k>>} ELSE {}) \cup
   UNION {RowBad(exp[ev.pt[q].i], ev.pt[q]) : q \in 1..Len(ev.pt)} \cup
